@@ -197,7 +197,7 @@ impl World {
                 let pending_io = self.nodes.get(n).map(|x| !x.outstanding.is_empty() || !x.apply_q.is_empty()).unwrap_or(false);
                 if has || pending_io {
                     moved = true;
-                    self.apply_quiet(&Action::Fsync { n: *n, count: u32::MAX })?;
+                    self.apply_quiet(&Action::Fsync { n: *n, count: u32::MAX, defer: false })?;
                     self.apply_quiet(&Action::AppReady { n: *n, mode: Mode::Sync, skip_fsync: false, force: false })?;
                     self.apply_quiet(&Action::Apply { n: *n, count: u32::MAX })?;
                 }
